@@ -35,7 +35,7 @@ TEXT = {
 
 LOOP_NOTE = ('Trusted: Verus/Z3/rustc; the assembler (E1-E4 and the token weave); the Driver trait contract as the model of the environment (RealDriver meeting it is assumed); '
              'Instant/Duration as mathematical integers (axioms on AddSpec/SubSpec/PartialOrdSpec); Mapper used through its contracts (proved by the mapper unit). '
-             'Environment assumptions: fewer than 50 interruptions between device events; monotonic clock; layout_ok. No witness search for the loop: a failed obligation is reported with no-failing-input-found.')
+             'Environment assumptions: fewer than 50 interruptions between device events; monotonic clock; layout_ok. Witness search for the loop: a scripted Driver with seeded delivery schedules in the harness (loop_probe.rs); without a witness a failed obligation is reported with no-failing-input-found.')
 TEXT.update({
     'C10': dict(
         technique='deductive verification (Verus): loop invariants of do_remapping_loop_one_device against the contract of the Driver trait (typestate with ghost state), real loop text',
@@ -75,14 +75,16 @@ TEXT.update({
                     'of convert to the universal mapper client for every operation sequence. The JSON/serde front end is outside the reach of the verifier and is trusted, which the level note says.'),
         design_ref='6.14', level_note=CONV_NOTE + ' ' + MAPPER_NOTE),
     'C13': dict(
-        technique='deductive verification (Verus): MultiplyIter / AliasCombinationIterator against the mixed-radix enumeration spec; converter components on the real text',
-        level_text=('Proof of the combination enumeration only (clause "one mapping per combination of alias definitions"): MultiplyIter::new/next enumerate every tuple below the alias quantities exactly once, in '
-                    'little-endian counting order (rank strictly increasing, total = product of the quantities), AliasCombinationIterator maps it one to one; every index used by the converter is in range. '
-                    'NOT yet covered by a contract: the per-letter Shift rule, the US-QWERTY tables, output-side alias replacement, repeat-only entries, and the equivalence of spellings (parser, out of reach).'),
-        design_ref='6.13', level_note=CONV_NOTE),
-})
-
-TEXT.update({
+        technique='deductive verification (Verus): functional contracts on the converter (convert_row_to, find_right_shift, from_modifiers, reify_modifiers, build_combinations, the combination iterators, convert_single, convert_row, convert_alias, convert_mapping, adjust_repeats frame, convert) on the real code, against statement-level spec functions; the two tables by complete enumeration',
+        level_text=('Proof, unbounded, of the expansion clauses for (trigger, output) pairs: convert ensures convert_shape - the result is, in source order, the pairs each source mapping stands for, followed only by identity '
+                    'mappings appended by repeat-only entries (adjust_repeats leaves triggers and outputs of existing mappings alone). Per source mapping (pairs_of): an alias definition is itself a mapping unless it is a lone '
+                    'modifier; a single mapping yields one pair per combination of alias definitions - every combination exactly once, in little-endian counting order (MultiplyIter / AliasCombinationIterator: handled + remaining = all) - '
+                    'with trigger = the combination\'s trigger-side keys (plain keys as written, each alias replaced by the keys of the definition the combination selects, the definitions being those the alias table lists: '
+                    'build_combinations ensures built) + the trigger key, output = the output modifiers with aliases replaced by the keys chosen on the trigger side + the output key; a row yields, per combination, one pair per '
+                    'non-space letter in letter order (letters = the characters of the string, vstd knows chars().collect()), trigger = combination keys + the key in the letter\'s column of the physical row, output = output '
+                    'modifiers + the Shift the character needs (right Shift iff the trigger contains right Shift) + the key of the character. The tables themselves (94 characters, 5 rows) are compared with the US-QWERTY layout '
+                    'for every Unicode scalar value and every row on every run (enumerative, complete). Not under contract: find_alias_mappings, the trigger-set matching of the repeat-only pass, repeat/absorbing fields, spelling equivalence (parser).'),
+        design_ref='6.13', level_note=CONV_NOTE + ' Partial: the assumptions list the clauses that are not under contract.'),
     'C17': dict(
         technique='deductive verification (Verus) of the escaping theorem over a specification of systemd\'s ExecStart parsing + verified executable twins run exhaustively on the real escape_one_char / build_service_text',
         level_text=('Two parts. (1) Proof, unbounded in pattern length and position: for EVERY escaper that satisfies the per-character condition char_ok, every non-empty NUL-free pattern, embedded at a word start '
